@@ -113,6 +113,15 @@ def load_specs():
                 pending = (tags, ' '.join(x for x in t if x not in tags))
             elif line.strip().startswith('//') or not line.strip():
                 continue
+            elif line.startswith('@POST(') or line.startswith('@POST_EXC('):
+                x = line[line.index('(') + 1:line.rindex(')')]
+                guard = '' if line.startswith('@POST(') else 'l0_exc == 0 || '
+                for macro, tg, lab in [('V_WORDS_OK', ['C01', 'C05', 'C07'], 'size/capacity words of %s are a reachable encoding' % x),
+                                       ('V_CELL_OK', ['C02', 'C09'], 'every slot of %s below size is alive, every slot above is raw' % x),
+                                       ('V_TOK_OK', ['C02'], 'no tracked element of %s sits in a raw slot' % x),
+                                       ('V_BLK_OK', ['C06'], 'the heap buffer of %s is an outstanding block of exactly capacity elements' % x)]:
+                    cur.clauses.append((tg, lab, '__CPROVER_ensures(%s(%s))' % (macro, x)))
+                pending = None
             elif loop is not None:
                 cur.loops[loop].append(line)
             else:
@@ -132,6 +141,7 @@ def splice(lowered_text, specs, cnames, subst):
     """insert the contract clauses of the listed functions; returns (text, clause_map {line -> (cname, tags, label, text)})"""
     out_lines = []
     clause_map = {}
+    ordinals = {}       # (fn, 'ensures'|'requires', k) -> clause
     fn = None
     want = set(cnames)
     found = set()
@@ -150,11 +160,18 @@ def splice(lowered_text, specs, cnames, subst):
                         text = text.replace(k, v)
                     out_lines.append(text)
                     clause_map[len(out_lines)] = (fn, tags, label, text)
-                out_lines.append('__CPROVER_ensures(VAC_NORMAL || l0_exc != 0)')
-                clause_map[len(out_lines)] = (fn, ['VAC'], 'vacuity guard: normal exit reachable', '')
+                    for kind in ('ensures', 'requires'):
+                        if text.lstrip().startswith('__CPROVER_' + kind):
+                            k = 1 + len([1 for key in ordinals if key[0] == fn and key[1] == kind])
+                            ordinals[(fn, kind, k)] = (fn, tags, label, text)
+                extra = [('__CPROVER_ensures(VAC_NORMAL || l0_exc != 0)', 'vacuity guard: normal exit reachable')]
                 if spec.throws:
-                    out_lines.append('__CPROVER_ensures(VAC_EXC || l0_exc == 0)')
-                    clause_map[len(out_lines)] = (fn, ['VAC'], 'vacuity guard: exceptional exit reachable', '')
+                    extra.append(('__CPROVER_ensures(VAC_EXC || l0_exc == 0)', 'vacuity guard: exceptional exit reachable'))
+                for text, label in extra:
+                    out_lines.append(text)
+                    clause_map[len(out_lines)] = (fn, ['VAC'], label, '')
+                    k = 1 + len([1 for key in ordinals if key[0] == fn and key[1] == 'ensures'])
+                    ordinals[(fn, 'ensures', k)] = (fn, ['VAC'], label, '')
             else:
                 out_lines.append('')
             continue
@@ -178,6 +195,7 @@ def splice(lowered_text, specs, cnames, subst):
     missing = want - found
     if missing:
         raise Infra('functions not present in the lowered code (renamed or no longer instantiated): %s' % sorted(missing))
+    clause_map['ordinals'] = ordinals
     return '\n'.join(out_lines), clause_map
 
 # ---------------------------------------------------------------------------------------------------------- units
@@ -221,8 +239,9 @@ def build_unit_text(unit, xdir, specs, report):
     head.append('#include "inv.h"')
     head.append('uint64_t g_N; struct vsnap pre_self, pre_o; struct gsnap pre_g;')
     nhead = sum(h.count('\n') + 1 for h in head)
-    body = '\n'.join(head) + '\n' + text + '\n#include "l0_globals.c"\n' + 'void harness(void) {\n%s\n  %s\n}\n' % (decls, call)
-    cmap2 = {ln + nhead: v for ln, v in cmap.items()}
+    body = '\n'.join(head) + '\n' + text + '\n#include "l0_globals.c"\n' + 'void harness(void) {\n%s\n  l0_havoc();\n  %s\n}\n' % (decls, call)
+    cmap2 = {ln + nhead: v for ln, v in cmap.items() if ln != 'ordinals'}
+    cmap2['ordinals'] = cmap['ordinals']
     cflags = ['-DESZ=%d' % facts['sizeof'], '-DCAT_TC=%d' % facts['trivially_copyable'], '-DCAT_TR=%d' % facts['trivially_relocatable'],
               '-DCAT_NOTHROW_MOVE=%d' % (1 if facts['nothrow_move_construct'] and facts['nothrow_move_assign'] else 0)]
     return body, cmap2, cflags
@@ -288,7 +307,12 @@ def run_unit(unit, xdir, specs, report, variant='main', extra_defs=(), log=print
         if tags:
             o['tags'] = tags.group(1).split()
         elif 'ensures clause' in desc or 'requires clause' in desc or 'loop invariant' in desc or 'decreases' in desc:
-            c = cmap.get(line)
+            c = None
+            mo = re.match(r'^(\w+)\.(postcondition|precondition)\.(\d+)$', r['property'])
+            if mo:
+                c = cmap['ordinals'].get((mo.group(1), 'ensures' if mo.group(2) == 'postcondition' else 'requires', int(mo.group(3))))
+            if c is None:
+                c = cmap.get(line + 1) or cmap.get(line)
             if c:
                 o['tags'] = list(c[1]); o['label'] = c[2] or c[3][:120]; o['clause'] = c[3][:300]
         if r['status'] == 'FAILURE' and 'trace' in r:
@@ -301,6 +325,7 @@ def run_unit(unit, xdir, specs, report, variant='main', extra_defs=(), log=print
 def compact_trace(trace):
     """keep assignments to harness inputs / ghost state / container words (names and values only)"""
     out = []
+    keep = []
     for st in trace:
         if st.get('stepType') == 'assignment' and not st.get('hidden'):
             lhs = st.get('lhs', '')
@@ -308,5 +333,8 @@ def compact_trace(trace):
             val = v.get('data', v.get('name'))
             fn = st.get('sourceLocation', {}).get('function', '')
             if val is not None and not lhs.startswith('__CPROVER') and 'car_' not in lhs and not lhs.startswith('return_value___CPROVER'):
-                out.append([fn, lhs, str(val)[:60]])
-    return out[-400:]
+                if re.match(r'^(g_|pre_|l0_exc)', lhs) or fn in ('harness', ''):
+                    keep.append([fn, lhs, str(val)[:60]])
+                else:
+                    out.append([fn, lhs, str(val)[:60]])
+    return keep[-600:] + out[-200:]
